@@ -108,3 +108,11 @@ CHECKS["C16"] = {
     "text": "Threaded runs with scripted loop-body durations (0, <<P, P-1, P, P+1, several P) check that the k-th wait() returns at max(t0+k*P, body end) - never before the grid point -, that every programmed alarm is t0+k*P however long bodies took, that free()/with-exit stops and cleans the notifier once and a later wait() returns without touching the HAL; a sweep over whole-microsecond periods in [1 ms, 100 ms] (all 99 001 in the thorough tier) checks the period conversion through the first programmed alarm.",
     "note": "trusts the HAL simulator's notifier (level-triggered wait); a lost wake-up in the simulator shows up as an inconclusive case, never as a verdict",
 }
+
+CHECKS["C14"] = {
+    "engine": "p_selector",
+    "technique": "runtime monitor: generated autonomous packages on disk through the real AutonomousModeSelector (constructor, start/periodic/disable API and the run() loop in a gated thread); expected discovery set and per-period callback automaton",
+    "ref": "DESIGN.md section 5 (C14)",
+    "text": "Generated packages (modules x classes with MODE_NAME / DISABLED / DEFAULT, duplicates, several defaults, failing imports, syntax errors, failing constructors, shared helper classes, missing package) x FMS on/off x selection source (chooser default, SendableChooserSim, 'Auto Selector' naming a mode or nothing): constructor calls exactly once per eligible class, selector.modes and the chooser topics (options, default) read from NetworkTables, start-up exception iff a fault exists and no FMS, healthy modes all offered under FMS; per period the chosen mode gets on_enable, one on_iteration(t) per loop with non-decreasing t, on_disable; no other mode gets anything; nothing after on_disable.",
+    "note": "under tolerated faults (FMS) the preselected entry and which duplicate instance runs are don't-cares; mode classes re-exported by a second module are not generated",
+}
